@@ -1218,6 +1218,10 @@ class MyPyAstVisitor:
             # Public and dunder members are as public as their class
             return parent.is_public
 
+        if isinstance(parent, Function) and isinstance(self.__declaration_stack[-2], Class):
+            # Instance attributes are defined in the constructor, their class decides as well
+            return self.__declaration_stack[-2].is_public
+
         # The slicing is necessary so __init__ functions are not excluded (already handled in the first condition).
         return all(not is_internal(it) for it in qname.split(".")[:-1])
 
